@@ -70,27 +70,40 @@ class Sink(object):
         return b''.join(self.chunks)
 
 
-def run_interleaved(fn_a, fn_b, k, only_substr='/minecraft/'):
+class InterleaveDeadlock(Exception):
+    pass
+
+
+def run_interleaved(fn_a, fn_b, k, only_substr='/minecraft/', wait=0.05):
     """Harness-owned 'preemption': call fn_a(); at its k-th traced line event
     (in frames whose file name contains only_substr) suspend it, run fn_b()
-    to completion, then let fn_a continue.  For code whose state is confined
-    to locals this is indistinguishable from running the two calls one after
-    the other - exactly what a thread switch at that line boundary would
-    show.  Only for lock-free code (the nested call runs on the same thread).
+    on another thread, then let fn_a continue.  For code whose state is
+    confined to locals this is indistinguishable from running the two calls
+    one after the other - exactly what a thread switch at that line boundary
+    would show.  If fn_b does not finish within `wait` seconds (it waits for
+    a lock fn_a holds: the switch is not possible there) fn_a is resumed and
+    fn_b completes afterwards; if it still has not finished 5 s after fn_a
+    returned, InterleaveDeadlock is raised.
     Returns (result of fn_a, result of fn_b or None, whether fn_b ran)."""
+    import threading
     count = [0]
-    out = {'b': None, 'ran': False}
+    out = {'b': None, 'ran': False, 'exc': None, 'thread': None}
+
+    def run_b():
+        try:
+            out['b'] = fn_b()
+        except BaseException as e:      # noqa: reported by the caller
+            out['exc'] = e
 
     def local(frame, event, arg):
         if event == 'line' and not out['ran']:
             count[0] += 1
             if count[0] == k:
                 out['ran'] = True
-                sys.settrace(None)
-                try:
-                    out['b'] = fn_b()
-                finally:
-                    sys.settrace(tracer)
+                t = threading.Thread(target=run_b, daemon=True)
+                out['thread'] = t
+                t.start()
+                t.join(wait)
         return local
 
     def tracer(frame, event, arg):
@@ -104,4 +117,11 @@ def run_interleaved(fn_a, fn_b, k, only_substr='/minecraft/'):
         a = fn_a()
     finally:
         sys.settrace(old)
+    t = out['thread']
+    if t is not None:
+        t.join(5.0)
+        if t.is_alive():
+            raise InterleaveDeadlock('the second call never finished')
+    if out['exc'] is not None:
+        raise out['exc']
     return a, out['b'], out['ran']
